@@ -21,7 +21,8 @@ LEVEL_TEXT = ('Decides that no code can alter a parsed assembly item, that the b
               'that contract metadata travels by deep copy with only the code fields replaced, and that every block of a '
               "code section is appended to that section's own list on every path (C09.g). The stitching itself is decided "
               'on a bounded family by abstract evaluation (C09.f: prefix, 1-3 sub-blocks, suffix, every subset replaced): '
-              'skeleton kept, original items unchanged, replacement operands are the real operands of the input block.')
+              'skeleton kept, original items unchanged, replacement operands are the real operands of the input block.'
+              ' Added in seeding rounds 8-9: nested child assemblies in .data survive parse and serialise (C09.h, shared with C15.f) and pseudo-push operands pass through the translation unchanged, 65-bit tags included (C09.i).')
 EXPLANATION = ("Project-wide enumeration of attribute stores on item fields, of AsmBytecode(...) constructions and of "
                "append/extend calls inside rebuild_optimized_asm_block, each classified by the shape of its argument.")
 NOT_DECIDED = ('positions after a rebuild for blocks outside the family of C09.f (more than three sub-blocks; split '
